@@ -8,8 +8,10 @@ import (
 	"runtime"
 	"sort"
 	"strings"
+	"sync/atomic"
 	"testing"
 	"testing/synctest"
+	"time"
 
 	"github.com/wi1dcard/fingerproxy/pkg/http2"
 )
@@ -19,12 +21,79 @@ type RunResult struct {
 	Panic    any    // panic raised by the body (recovered), nil if none
 	Stack    string // stack of that panic
 	Deadlock string // non-empty if the bubble ended with goroutines blocked forever (census of them)
+	Hang     string // non-empty if the execution never came back (see HangTimeout)
 }
+
+// HangTimeout is the real time after which an execution that has not come back is declared hung
+// (a goroutine of the bubble is blocked in a way testing/synctest does not consider durable - typically
+// sync.Mutex.Lock on a mutex nobody will release - so neither synctest.Wait nor the end of the bubble can happen).
+var HangTimeout = 45 * time.Second
+
+var hangs int32
 
 // Run executes body in a fresh bubble. A panic in body is recovered and
 // reported; "blocked goroutines remain" at the end of the bubble is reported
-// as Deadlock with a census of the blocked goroutines instead of crashing.
+// as Deadlock instead of crashing; an execution that does not come back within
+// HangTimeout is abandoned (its goroutines stay behind) and reported as Hang with
+// the non-durably blocked goroutines of bubbles found in a full stack dump.
 func Run(t *testing.T, body func()) (res RunResult) {
+	if atomic.LoadInt32(&hangs) >= 3 {
+		// three executions of this process never came back: do not spend 45 s on each of the remaining ones
+		return RunResult{Hang: "skipped: three earlier executions of this worker hung"}
+	}
+	done := make(chan RunResult, 1)
+	go func() { done <- run1(t, body) }()
+	tm := time.NewTimer(HangTimeout)
+	defer tm.Stop()
+	select {
+	case r := <-done:
+		return r
+	case <-tm.C:
+		atomic.AddInt32(&hangs, 1)
+		http2.VerifResetPools()
+		return RunResult{Hang: hangReport()}
+	}
+}
+
+func hangReport() string {
+	buf := make([]byte, 4<<20)
+	buf = buf[:runtime.Stack(buf, true)]
+	var out []string
+	for _, b := range strings.Split(string(buf), "\n\n") {
+		lines := strings.Split(b, "\n")
+		m := hdrRE.FindStringSubmatch(lines[0])
+		if m == nil || !strings.Contains(m[2], "synctest bubble") || strings.Contains(m[2], "(durable)") {
+			continue
+		}
+		st := strings.TrimSpace(strings.Split(m[2], ",")[0])
+		if st == "running" || st == "runnable" {
+			continue
+		}
+		var fs []string
+		for _, l := range lines[1:] {
+			if strings.HasPrefix(l, "\t") || strings.HasPrefix(l, "created by") {
+				continue
+			}
+			if i := strings.LastIndex(l, "("); i > 0 {
+				l = l[:i]
+			}
+			if !strings.HasPrefix(l, "runtime.") && !strings.HasPrefix(l, "internal/") && !strings.HasPrefix(l, "sync.") {
+				fs = append(fs, l)
+			}
+			if len(fs) == 3 {
+				break
+			}
+		}
+		out = append(out, st+" in "+strings.Join(fs, " <- "))
+	}
+	sort.Strings(out)
+	if len(out) > 6 {
+		out = out[:6]
+	}
+	return "execution did not come back: goroutines blocked non-durably: " + strings.Join(out, "; ")
+}
+
+func run1(t *testing.T, body func()) (res RunResult) {
 	defer func() {
 		if r := recover(); r != nil {
 			s := fmt.Sprint(r)
@@ -35,7 +104,6 @@ func Run(t *testing.T, body func()) (res RunResult) {
 			panic(r)
 		}
 	}()
-	var leftover string
 	defer http2.VerifResetPools() // channels pooled by pkg/http2 must not survive into the next bubble
 	synctest.Test(t, func(t *testing.T) {
 		defer func() {
@@ -44,13 +112,9 @@ func Run(t *testing.T, body func()) (res RunResult) {
 				buf := make([]byte, 1<<16)
 				res.Stack = string(buf[:runtime.Stack(buf, false)])
 			}
-			// census of what is still alive when the body is done: if the bubble then deadlocks,
-			// this is the list of suspects.
-			leftover = strings.Join(CensusSummary(), "; ")
 		}()
 		body()
 	})
-	_ = leftover
 	return res
 }
 
